@@ -123,14 +123,16 @@ def run(ck, ctx):
                   f"dependence: {sorted(k) or 'none'}",
                   construct=f"altitude_from_pressure_map_v0.<locals>.f: {nm} unused")
         # searchsorted sites
+        # grid look-ups feeding the map index, wherever they are spelled (closure body or a helper it calls)
         ss = [n for n in walk([mv]) if is_ext_call(n, "numpy.searchsorted") and n.fn is not None
-              and n.fn.qualname.startswith("altitude_from_pressure_map_v0")]
+              and n.fn.module is not None and n.fn.module.name.endswith("atmosphere.clouds")]
         ck.floor("R09.4", len(ss), 2, "grid look-ups (searchsorted) in the map closure")
         uf = unit_facet(I)
         uf.seed(lat, Un.RAD)
         uf.seed(lon, Un.RAD)
         uf.of(mv)
-        nconf = report_conflicts(ck, "R09.4", uf, lambda f: f.startswith("altitude_from_pressure_map_v0"), fn,
+        ss_funcs = {n.fn.qualname for n in ss} | {"altitude_from_pressure_map_v0"}
+        nconf = report_conflicts(ck, "R09.4", uf, lambda f: any(f.startswith(q) for q in ss_funcs), fn,
                                  what="grid/coordinate agreement")
         kinds = {}
         for n in ss:
@@ -163,8 +165,11 @@ def run(ck, ctx):
         # grid sizes follow the map's shape
         for n in ss:
             grid = call_args(n)[0][0]
-            if is_ext_call(grid, "numpy.linspace") and len(grid.args) >= 4:
-                cnt = grid.args[3]
+            if is_ext_call(grid, "numpy.linspace"):
+                gpos, gkw = call_args(grid)
+                cnt = gkw.get("num", gpos[2] if len(gpos) > 2 else None)
+                if cnt is None:
+                    continue
                 ok = cnt.op == "Subscript" and cnt.args[0].op == "Attr" and cnt.args[0].attr == "shape"
                 ax = cnt.args[1].attr if ok and cnt.args[1].op == "Const" else None
                 want_ax = 0 if n is kinds.get("latitude") else 1
